@@ -434,6 +434,7 @@ class Evaluator:
                 senv.update({q["name"]: self.wrap(v, q["ct"]) if isinstance(v, int) else v for q, v in zip(g.params, args) if v is not None})
                 sub = Evaluator(self.prog, g, env=senv, calls=self.calls)
                 sub.inline = inl
+                sub._parent = self
                 sub._depth = getattr(self, "_depth", 0) + 1
                 sub.pass_object = getattr(self, "pass_object", False)
                 sub.heap_mode = getattr(self, "heap_mode", False)
@@ -484,7 +485,12 @@ class Evaluator:
             raise Unknown("call " + str(nm))
         if k == "CXXNewExpr":
             # a fresh object: its address is a new integer; constructor arguments are evaluated and recorded
-            self._newid = getattr(self, "_newid", 880000) + 16
+            # fresh addresses are unique across the evaluators of one fold (inlined callees allocate too)
+            root = self
+            while getattr(root, "_parent", None) is not None:
+                root = root._parent
+            root._newctr = getattr(root, "_newctr", 880000) + 16
+            self._newid = root._newctr
             argv = []
             for ch in n.get("c", []):
                 inner = f.strip(ch)
